@@ -168,6 +168,10 @@ def run(prop, tier, extra_corpus=None):
     chk = Check(prop, tier, level)
     wd = workdir("%s-%s" % (prop, tier))
     run_into(chk, prop, tier, wd, extra_corpus=extra_corpus)
+    if prop == "C04":
+        # error-free trees of every node kind: the sentences of the reference grammar (tapes replayed, SQL/Pos/End/Walk on every node)
+        import fam_grammar
+        fam_grammar.run_into(chk, "C04", tier, os.path.join(wd, "grammar"))
     return chk.finish()
 
 
